@@ -1,5 +1,6 @@
 //! Shared machinery of the zlink verification harness (see /verif/DESIGN.md §2.1).
 
+pub mod alloc;
 pub mod drv;
 pub mod ev;
 pub mod exec;
